@@ -156,6 +156,11 @@ func runC20(c *Ctx) {
 			continue // the positional fill loop
 		}
 		nSingle++
+		{
+			// the list never outgrows the protocol's 16-bit parameter count: a '?' is added only below the limit
+			l := core.NewLin(c.P, pp, c.modSets(), c.summaries("C20.R2"))
+			R.Check(l.Prove(ci, l.LenOf(ci.Common().Args[0]), core.Zero, 65534), "C20.R2", "ParseParameters:unpositional-below-limit", c.at(ci), "the work and the result are bounded by the protocol's 65535-parameter limit for '?' markers too", "E-LIN: len(parameters) <= 65534 at the append", "the '?' branch appends without a limit: a query text with more than 65535 '?' markers returns a longer list, and ParameterDescription then announces int16(len) - a count that does not match the OIDs that follow")
+		}
 		R.Check(anyDominates(emptyEdges, ci.Block()), "C20.R3", "ParseParameters:unpositional-only-when-capture-empty", c.at(ci), "a marker adds one placeholder only when it is a '?' (empty position group); every $n marker, however large n, extends the list to min(n, 65535)", "the single append is dominated by the capture == \"\" edge", "the one-placeholder append is not guarded by an emptiness test of the position group: a $n marker can be counted as a '?' (e.g. when its number overflows the integer conversion)")
 	}
 	R.Floor("C20.R3", "un-positional append sites", nSingle, 1)
